@@ -45,6 +45,10 @@ TEMPLATES = {
     "rsub": (1, lambda s: 10 - s),
     "div": (2, lambda s, t: s / (t + 100)),
     "same": (1, lambda s: s),          # an alias: the target receives the very same object as the source
+    # a builtin node (abs / round) as the FIRST operand visited of an enclosing binary operation, and nested under another builtin with a
+    # parameter: the accumulator of the dependency walk is still empty when the builtin node is reached (wave 9, C02-17)
+    "absp": (2, lambda s, t: abs(s) + t),
+    "rnd": (1, lambda s: round(abs(s), 1) * 2),
 }
 
 
@@ -101,7 +105,7 @@ def locstr(loc):
 
 
 TEXT = {"dbl": "2 * {0}", "inc": "{0} + 1", "neg": "-{0}", "sum": "{0} + {1}", "mix": "{0} * {1} - 1", "rsub": "10 - {0}",
-        "div": "{0} / ({1} + 100)", "same": "{0}"}
+        "div": "{0} / ({1} + 100)", "same": "{0}", "absp": "abs({0}) + {1}", "rnd": "round(abs({0}), 1) * 2"}
 
 
 def labelstr(loc):
@@ -360,7 +364,7 @@ def history_script(ops, tail="", after_setup=""):
         lines.append("class H:\n    @staticmethod\n    def tot(c): return float(sum(c.values())) if isinstance(c, dict) else float(sum(c))\n"
                      "f = m.ref(H, 'f')")
     src = {"tot": "f.tot({0})", "dbl": "2 * {0}", "inc": "{0} + 1", "neg": "-{0}", "sum": "{0} + {1}", "mix": "{0} * {1} - 1",
-           "rsub": "10 - {0}", "div": "{0} / ({1} + 100)", "same": "{0}"}
+           "rsub": "10 - {0}", "div": "{0} / ({1} + 100)", "same": "{0}", "absp": "abs({0}) + {1}", "rnd": "round(abs({0}), 1) * 2"}
     if after_setup:
         lines.append(after_setup)
 
@@ -408,6 +412,7 @@ def op_alphabet(small=True, containers=False):
         (("n", "y"), "inc", [("n", "x")]), (("n", "z"), "mix", [("n", "y"), ("b",)]), (("c",), "inc", [("n", "y")]),
         (("l", 0), "rsub", [("b",)]), (("l", 1), "sum", [("l", 0), ("a",)]), (("o", ".p"), "neg", [("c",)]),
         (("o", ".q"), "sum", [("o", ".p"), ("n", "x")]), (("a",), "inc", [("o", ".q")]), (("b",), "div", [("l", 1), ("a",)]),
+        (("c",), "absp", [("a",), ("b",)]),
     ]
     for loc, tn, srcs in pairs:
         ops.append(("expr", loc, tn, tuple(srcs)))
